@@ -31,6 +31,12 @@ logging.disable(logging.CRITICAL)
 NUMERIC = list(INT_TYPES)
 
 
+def mname(dt):
+    """member names: every second one contains dots itself, as EDS abbreviations do ('Max. speed'); the
+    qualified name 'Rec.<member>' is split at the FIRST dot only"""
+    return f"m{dt}" if dt % 2 else f"m. {dt} (no. {dt})"
+
+
 def make_od():
     from canopen import objectdictionary as odm
     od = odm.ObjectDictionary()
@@ -41,7 +47,7 @@ def make_od():
     rec = odm.ODRecord("Rec", 0x3000)
     sub0 = odm.ODVariable("n", 0x3000, 0); sub0.data_type = odm.UNSIGNED8; rec.add_member(sub0)
     for i, dt in enumerate(NUMERIC + [BOOLEAN, REAL32, REAL64, VISIBLE, OCTET, UNICODE, DOMAIN]):
-        v = odm.ODVariable(f"m{dt}", 0x3000, i + 1)
+        v = odm.ODVariable(mname(dt), 0x3000, i + 1)
         v.data_type = dt
         rec.add_member(v)
     od.add_object(rec)
@@ -183,7 +189,7 @@ def setup(mode, seed, node_ids):
 def accessor(node_sdo, access, dt):
     if access == "index": return node_sdo[0x2000 + dt]
     if access == "name": return node_sdo[f"var{dt}"]
-    if access == "member": return node_sdo[f"Rec.m{dt}"]
+    if access == "member": return node_sdo[f"Rec.{mname(dt)}"]
     if access == "record": return node_sdo[0x3000][member_sub(dt)]
     raise ValueError(access)
 
@@ -308,7 +314,7 @@ def gdict():
                     % (0x2000 + dt, gname(f"var{dt}"), 0x2000 + dt, gvar(dt)))
     ms = ["{| nv_name := %s; nv_index := 12288; nv_sub := 0; nv_var := %s |}" % (gname("n"), gvar(5))]
     for i, dt in enumerate(ALLT):
-        ms.append("{| nv_name := %s; nv_index := 12288; nv_sub := %d; nv_var := %s |}" % (gname(f"m{dt}"), i + 1, gvar(dt)))
+        ms.append("{| nv_name := %s; nv_index := 12288; nv_sub := %d; nv_var := %s |}" % (gname(mname(dt)), i + 1, gvar(dt)))
     ents.append("(12288, NRec %s %s)" % (gname("Rec"), glist(ms)))
     return glist(ents)
 
@@ -316,7 +322,7 @@ def gdict():
 def gaccess(access, dt):
     if access == "index": return "(AIndex %d)" % (0x2000 + dt)
     if access == "name": return "(AName %s)" % gname(f"var{dt}")
-    if access == "member": return "(AName %s)" % gname(f"Rec.m{dt}")
+    if access == "member": return "(AName %s)" % gname(f"Rec.{mname(dt)}")
     if access == "record": return "(ARec 12288 %d)" % member_sub(dt)
     raise ValueError(access)
 
